@@ -278,6 +278,23 @@ def cl_pass(c, L):
     return z3.BoolVal(False)
 
 
+def cl_post(c):
+    t = c.trace
+    heads = [i for i, e in enumerate(t) if e[0] == 'loop-head' and e[1] == 1]
+    if not heads:
+        return z3.BoolVal(False)
+    tail = [e for e in t[heads[-1]:] if e[0] in ('res-append', 'clump-append', 'new-list')]
+    cur = c.st.env.get('clump')
+    r = c.resultv
+    is_res = r.k == 'ref' and r.cls == 'CBuf' and r.extra.get('res')
+    if cur is None or cur.k != 'ref':
+        return z3.BoolVal(False)
+    nonempty = cur.extra['truth']
+    delivered = len(tail) == 1 and tail[0][0] == 'res-append' and tail[0][2] is cur
+    return z3.And(z3.BoolVal(bool(is_res)), z3.BoolVal(len(tail) <= 1),
+                  z3.BoolVal(bool(delivered)) == nonempty)
+
+
 def clump_kind(eng, name):
     return V('ref', cls='CBuf', oid='open-clump', extra={'res': False, 'truth': z3.Bool('open_clump_nonempty')})
 
@@ -287,7 +304,7 @@ contract(F, 'NetAddr._clump_bundle', props=('C06',),
              'len': NEL, 'facts': [NEL >= 0], 'get': (lambda eng_, i, st_: V('any', EL_VAL(i)))})), 'size': 'int'},
          requires=lambda c: z3.And(c.size > 20, NEL >= 0, z3.ForAll([z3.Int('k')], EL_SIZE(z3.Int('k')) >= 0)),
          raises={'ValueError': None, 'TypeError': None, 'IndexError': None},
-         ensures=[],
+         ensures=[('the-open-clump-is-delivered-iff-it-holds-something;result-is-the-list-of-clumps', cl_post)],
          loops={0: _CLoop(inv=cl_first, over=over_elements, kinds={'e': 'any'}),
                 1: _CLoop(inv=cl_pass, over=over_elist, kinds={'acc_size': 'int', 's': 'int', 'e': 'any', 'clump': clump_kind},
                           havoc_hook=cl_remember)},
